@@ -1174,6 +1174,29 @@ func (x *Exec) freshnessOf(st *State, r smt.T) smt.T {
 	for _, o := range st.refs {
 		fs = append(fs, smt.Not(smt.Eq(r, o)))
 	}
+	// a new object differs from whatever the local variables currently refer to
+	var cells []*ssa.Alloc
+	for a := range st.cells {
+		cells = append(cells, a)
+	}
+	sort.Slice(cells, func(i, j int) bool { return cells[i].Pos() < cells[j].Pos() })
+	for _, a := range cells {
+		v := st.cells[a]
+		et := deref(a.Type())
+		if isTypeParam(et) {
+			continue
+		}
+		switch et.Underlying().(type) {
+		case *types.Pointer, *types.Interface, *types.Map, *types.Chan:
+			if v.Sort == smt.Int && v.S != "0" {
+				fs = append(fs, smt.Not(smt.Eq(r, v)))
+			}
+		case *types.Slice:
+			if v.Sort == SliceSort && v.S != nilSlice.S {
+				fs = append(fs, smt.Not(smt.Eq(r, sArr(v))))
+			}
+		}
+	}
 	names := make([]string, 0, len(x.params))
 	for n := range x.params {
 		names = append(names, n)
